@@ -210,7 +210,7 @@ def build_target(tgt):
     common = _common_objs(flavour)
     src = os.path.join(HARNESS, tgt["src"])
     deps = [src] + _files(os.path.join(HARNESS, "common"), (".hpp", ".h")) + \
-        [os.path.join(HARNESS, e) for e in tgt.get("extra_src", [])]
+        [os.path.join(HARNESS, e) for e in tgt.get("extra_src", []) + tgt.get("c_src", [])]
     objdig = _digest(deps, extra=repo_header_digest() + fl["cxx"] + fl["cxxflags"] + tgt.get("cxxflags", ""))
     objparent = os.path.join(BUILD, "obj", tgt["name"] + "-" + flavour)
     objdir = os.path.join(objparent, objdig)
@@ -225,6 +225,10 @@ def build_target(tgt):
             _run("%s %s%s %s -D%s %s -c -o %s.tmp %s" % (
                 fl["cxx"], fl["cxxflags"], extra, tgt.get("cxxflags", ""), GUARD, inc, obj, src))
             os.rename(obj + ".tmp", obj)
+            for cs in tgt.get("c_src", []):
+                # plain C helpers (they may include src/inner.h, which is not valid C++)
+                _run("%s %s -D%s %s -c -o %s %s" % (fl["cc"], fl["cflags"], GUARD, inc,
+                                                    os.path.join(objdir, os.path.basename(cs)[:-2] + ".o"), os.path.join(HARNESS, cs)))
             log("compiled %s (%s) in %.1fs" % (tgt["name"], flavour, time.time() - t0))
             _gc(objparent, 2)
         else:
@@ -235,16 +239,17 @@ def build_target(tgt):
         exe = os.path.join(bindir, tgt["name"])
         fexe = exe + "-fuzz"
         libs = " ".join(tgt.get("libs", []))
+        cobjs = " ".join(os.path.join(objdir, os.path.basename(cs)[:-2] + ".o") for cs in tgt.get("c_src", []))
         noseed = os.path.join(libdir, "sysrng_noseed.o") if tgt.get("noseed") else ""
         if not os.path.exists(os.path.join(bindir, ".done")):
             shutil.rmtree(bindir, ignore_errors=True)
             os.makedirs(bindir)
             cov = " -fsanitize=fuzzer-no-link" if flavour == "san" else ""
             _run("%s %s%s -o %s %s %s/core.o %s/main.o %s/rc_driver.o %s %s/libbearssl.a %s -lrapidcheck -lpthread" % (
-                fl["cxx"], fl["ldflags"], cov, exe, obj, common, common, common, noseed, libdir, libs))
+                fl["cxx"], fl["ldflags"], cov, exe, obj + " " + cobjs, common, common, common, noseed, libdir, libs))
             if tgt.get("fuzz"):
                 _run("%s %s -fsanitize=fuzzer -o %s %s %s/core.o %s/fuzz_main.o %s %s/libbearssl.a %s -lpthread" % (
-                    fl["cxx"], fl["ldflags"], fexe, obj, common, common, noseed, libdir, libs))
+                    fl["cxx"], fl["ldflags"], fexe, obj + " " + cobjs, common, common, noseed, libdir, libs))
             open(os.path.join(bindir, ".done"), "w").close()
             _gc(binparent, 2)
         else:
